@@ -67,6 +67,16 @@ names = [
    GENERATED AddCrt / Remove / pvSetEmpty: o2_add, o2_remove, o2_empty), an insertion under refused growth answers "Hash table
    is full" exactly when the GENERATED IsFull -- the test pvAddNogrow performs -- is true on every bucket."""),
  ('refused_insert_full_iff_generated_IsFull_n1', "the same for BucketOpenN1<maxCount, reverse> (BucketOpen8 = maxCount 7, reverse false)."),
+ ('refused_insert_full_iff_generated_IsFull_limp4', "the same clause for BucketLimP4<4> (hashCount 4..8): 'Hash table is full' under refused growth <-> the GENERATED IsFull is true on the bytes of every bucket, for every real table whose buckets (metadata bytes, item pointer, pointer state) represent the model table."),
+ ('refused_insert_full_iff_generated_IsFull_one', "... and for BucketOne (state word)."),
+ ('p4_full_agrees', "generated BucketLimP4::IsFull AND ::WasFull (memory-pool index in the pointer state) = the model bucket's isFull / wasFull under the abstraction relation rel_p4."),
+ ('p4_add', "generated BucketLimP4::AddCrt -- all five branches (pvAdd0<min>, pvAdd0<max>, pvAdd<1..3>, spare slot), whatever memory it is handed -- keeps rel_p4 with one more item and with the model's WasFull rule wasFull' = wasFull || (maxCount <= count')."),
+ ('p4_remove', "generated BucketLimP4::Remove keeps rel_p4 with one item less and WasFull KEPT (the frame condition the lookup invariant needs: removal never resets WasFull while items are reachable through the bucket)."),
+ ('p4_clear', "generated BucketLimP4::Clear: empty, not full, WasFull false (minMemPoolIndex 2 <> maxCount)."),
+ ('one_full_agrees', "generated BucketOne::IsFull / ::WasFull = the model bucket's isFull / wasFull."),
+ ('one_add', "generated BucketOne::AddCrt keeps the relation (full, WasFull set)."),
+ ('one_remove', "generated BucketOne::Remove: not full any more, WasFull still set."),
+ ('one_clear', "generated BucketOne::Clear: neither full nor WasFull."),
  ('o2_full_agrees', "generated BucketOpen2N2::IsFull on the bytes = the model's isFull (maxCount <= number of items) under the abstraction relation."),
  ('o2_add', "generated AddCrt keeps the abstraction relation (one more item)."),
  ('o2_remove', "generated Remove keeps the abstraction relation (one item less)."),
@@ -86,7 +96,7 @@ names = [
  ('ex_refused_until_full', "non-vacuity: with every growth refused a 2-bucket Open2N2<3> table accepts insertions up to 6 items through the fallback path, then reports full."),
 ]
 hdr = '''From Coq Require Import ZArith List Bool Permutation.
-From C11 Require Import GrowModel GenTie GenGrow GenFull.
+From C11 Require Import GrowModel GenTie GenGrow GenFull GenFullP4.
 Import ListNotations.
 Local Open Scope Z_scope.
 Set Printing Width 130.
@@ -105,7 +115,7 @@ res = '''(* Property C11 -- theorems only.  Each is closed by `exact <lemma>` an
    UpdateMaxProbe never under-approximates, the growth policy does not shrink / probing reaches every bucket,
    CalcCapacity <= physical size); they are proved below for the kinds used by the extracted model. *)
 From Coq Require Import ZArith List Bool Permutation.
-From C11 Require Import GrowModel GenTie GenGrow GenFull.
+From C11 Require Import GrowModel GenTie GenGrow GenFull GenFullP4.
 Import ListNotations.
 Local Open Scope Z_scope.
 
